@@ -732,6 +732,7 @@ func runC06(tier, replay string) int {
 	type verdict struct {
 		key, what string
 		incon     string
+		completed bool
 	}
 	verdicts := parallel(len(points), func(i int) verdict {
 		pt := points[i]
@@ -743,6 +744,11 @@ func runC06(tier, replay string) int {
 		fixRemotes(filepath.Join(work, "w"), pt.p.dir)
 		victim := filepath.Join(work, "w", "r0")
 		cr := runJob(CrashJob{Dir: victim, Scenario: pt.p.sc.Name, KillAt: pt.k, Ids: pt.p.ids})
+		if cr.Signal != "killed" && cr.ExitCode == 0 && strings.Contains(cr.Out, "@@K ") {
+			// the number of clock-moving Witness calls depends on the iteration order of a map inside read():
+			// this run issued fewer mutating calls than the dry run and completed before the kill point
+			return verdict{completed: true}
+		}
 		if cr.Signal != "killed" {
 			return verdict{incon: fmt.Sprintf("child was not killed at call %d (exit %d signal %q): %s", pt.k, cr.ExitCode, cr.Signal, mon.CrashExcerpt(cr.Out))}
 		}
@@ -768,6 +774,10 @@ func runC06(tier, replay string) int {
 		pt := points[i]
 		call := pt.p.log[pt.k]
 		cp := crashPoint{Scenario: pt.p.sc.Name, KillAt: pt.k, Call: call, Tier: "api-call"}
+		if v.completed {
+			r.Count("kill_point_beyond_the_calls_of_this_run", 1)
+			continue
+		}
 		if v.incon != "" {
 			r.Case("inconclusive", false)
 			r.Inconclusive(fmt.Sprintf("%s@%d: %s", pt.p.sc.Name, pt.k, v.incon))
